@@ -14,7 +14,7 @@ use crate::geom::{self, Aff, Lattice, P};
 use crate::statejson::{self, Params, ShapeSpec};
 
 pub const TITLE: &str = "Every crystal produced has the symmetry of the requested wallpaper group";
-pub const RULE: &str = "cases = (state kind: hard polygon (regular 3..12 or chiral radial polygon), hard discs (circle, trimer), Lennard-Jones (circle, trimer, or a chiral molecule of 2..4 generated particles); the library-built shapes (radial polygons, custom molecules) in a unit of length of 1, or 1e-10..1e4 in a fifth of the cases) x group x cell of the group's family (length by density, ratio 0.1..1, angle pi/6..pi/2 only for p1/p2) x site (bound-heavy mixture), optionally followed by an optimisation history (50..1500 steps, 1..8 inner loops, kT 0..0.5, step size up to 1) whose output is re-read from its JSON. Oracle: with the state's actual cell M and the ITA operations (W_k, w_k): M W_k M^-1 is orthogonal (1e-9); the placed shapes shape.transform(p) for p in cartesian_positions(), as point sets (polygon vertices, disc centres with radii), are mapped by every g_k = (M W_k M^-1, M w_k) onto the placed shapes translated by lattice vectors, as a permutation of the copies (1e-9 (1+|t|)). Non-trivial = group order >= 2 and copies pairwise distinct by > 1e-6; distinct by hash of the numbers.";
+pub const RULE: &str = "cases = (state kind: hard polygon (regular 3..12 or chiral radial polygon), hard discs (circle, trimer), Lennard-Jones (circle, trimer, or a chiral molecule of 2..4 generated particles); the library-built shapes (radial polygons, custom molecules) in a unit of length of 1, or 1e-10..1e4 in a fifth of the cases) x group x cell of the group's family (length by density, ratio 0.1..1, angle pi/6..pi/2 only for p1/p2) x site (bound-heavy mixture), optionally followed by an optimisation history (50..1500 steps, 1..8 inner loops, kT 0..0.5, step size up to 1) whose output is re-read from its JSON. Oracle: with the state's actual cell M and the ITA operations (W_k, w_k): M W_k M^-1 is orthogonal (1e-9); the placed shapes shape.transform(p) for p in cartesian_positions(), as point sets (polygon vertices, disc centres with radii), are mapped by every g_k = (M W_k M^-1, M w_k) onto the placed shapes translated by lattice vectors, as a permutation of the copies (1e-9 (1+|t|)). Non-trivial = group order >= 2 and copies pairwise distinct by > 1e-6; distinct by hash of the numbers. part multi-site: 2..4 occupied sites (hard and LJ): every group operation must permute the union of the placed copies modulo the lattice.";
 
 pub fn assumptions() -> Vec<&'static str> {
     vec!["shapes are compared as point sets of their components, so a symmetric shape mapped onto itself with permuted vertices counts as coinciding (it does in the plane)"]
@@ -110,12 +110,17 @@ fn pts_lj(s: &LJShape2) -> PointSet {
 
 /// the symmetry oracle on placed point sets
 pub fn check_symmetry(group: usize, p: &Params, copies: &[(P, PointSet)]) -> Result<bool, String> {
+    check_symmetry_sites(group, p, copies, 1)
+}
+
+/// the same for a state with `sites` occupied sites (the placed set is the union of the sites' copies)
+pub fn check_symmetry_sites(group: usize, p: &Params, copies: &[(P, PointSet)], sites: usize) -> Result<bool, String> {
     let g = geom::group(group);
     let lat = Lattice::from_params(p.length, p.ratio, p.angle);
     let m = lat.m();
     let minv = m.inv();
-    if copies.len() != g.ops.len() {
-        return Err(format!("{} copies are placed, the group {} has order {}", copies.len(), g.name, g.ops.len()));
+    if copies.len() != g.ops.len() * sites {
+        return Err(format!("{} copies are placed, the group {} has order {} and {} site(s) are occupied", copies.len(), g.name, g.ops.len(), sites));
     }
     let mut distinct = true;
     for i in 0..copies.len() {
@@ -292,6 +297,55 @@ fn oracle(c: &SymCase, rec: &Rec, _: &Ctx) -> Result<(), String> {
     Ok(())
 }
 
+// ------------------------------------------------------------------------------------------------
+// multi-site: 2..4 occupied sites; the union of the placed copies must be invariant
+
+#[derive(Clone, Debug, Serialize, Deserialize)]
+pub struct MultiSym {
+    pub spec: crate::multisite::MultiSpec,
+    pub lj: bool,
+}
+
+fn multi_strat(_: &Ctx) -> BoxedStrategy<MultiSym> {
+    let shape = prop_oneof![2 => convex_radial(), 1 => (3usize..=8).prop_map(|sides| ShapeSpec::Polygon { sides }), 3 => mol_shape_spec()];
+    (crate::multisite::multi_strat(shape.boxed(), 0.02, 0.9, 2, 4), any::<bool>()).prop_map(|(spec, lj)| MultiSym { lj: lj && !matches!(spec.shape, ShapeSpec::Polygon { .. } | ShapeSpec::Radial { .. }), spec }).boxed()
+}
+
+fn multi_oracle(c: &MultiSym, rec: &Rec, _: &Ctx) -> Result<(), String> {
+    macro_rules! placed {
+        ($st:expr, $pts:expr) => {{
+            let st = $st;
+            let copies: Vec<(P, PointSet)> = st
+                .cartesian_positions()
+                .map(|t| {
+                    let placed = st.shape.transform(&t);
+                    let centre = t * Point2::new(0., 0.);
+                    (P::new(centre.x, centre.y), $pts(&placed))
+                })
+                .collect();
+            copies
+        }};
+    }
+    let (copies, kind) = match (&c.spec.shape, c.lj) {
+        (ShapeSpec::Polygon { .. }, _) | (ShapeSpec::Radial { .. }, _) => (placed!(crate::multisite::packed_line(&c.spec)?, pts_line), "hard-polygon"),
+        (_, false) => (placed!(crate::multisite::packed_mol(&c.spec)?, pts_mol), "hard-discs"),
+        (_, true) => (placed!(crate::multisite::potential(&c.spec)?, pts_lj), "lj"),
+    };
+    rec.eval(1);
+    let s0 = c.spec.sites[0];
+    let p = Params { length: c.spec.length, ratio: c.spec.ratio, angle: c.spec.angle, x: s0.0, y: s0.1, phi: s0.2 };
+    let nt = check_symmetry_sites(c.spec.group, &p, &copies, c.spec.sites.len()).map_err(|e| format!("{} ({})", e, c.spec.describe()))?;
+    let class = format!("{}/{}/{}sites{}", kind, geom::GROUP_NAMES[c.spec.group], c.spec.sites.len(), if nt { "" } else { "/trivial" });
+    rec.class(&class);
+    if nt {
+        rec.nontrivial(crate::engine::hash_json(&serde_json::to_value(c).unwrap()));
+    }
+    if rec.wants_sample(&class) {
+        rec.sample(&class, || serde_json::to_value(c).unwrap());
+    }
+    Ok(())
+}
+
 pub fn parts() -> Vec<PartDef> {
-    vec![part("constructed", 2_000_000, 40_000_000, |_| strat(false), oracle), part("histories", 3_000, 60_000, |_| strat(true), oracle)]
+    vec![part("constructed", 2_000_000, 40_000_000, |_| strat(false), oracle), part("histories", 3_000, 60_000, |_| strat(true), oracle), part("multi-site", 300_000, 9_000_000, multi_strat, multi_oracle)]
 }
